@@ -57,6 +57,7 @@ class Run:
         self.driver_stats = {}
         self.violations = []      # all, for this property
         self.notes = []
+        self.strict = []
         self.checks_evaluated = collections.Counter()
         self.bin = {}
 
@@ -223,6 +224,95 @@ class Run:
         shutil.rmtree(d, ignore_errors=True)
         return mine
 
+    # ------------------------------------------------------------------ strict (step-level) conformance
+    def tlc_strict(self, module, trace, field, const, to_const=lambda v: v, selftest=None, timeout=1200):
+        """Step-level trace validation of a tier-I module: every record of the recorded trace must be explained
+        by an action of the tier-I module (module = <TierI>Strict.tla, which EXTENDS it). The tier-I constant
+        `const` varies per run (Reset field `field`), so TLC is run once per value; runs of other values are
+        skipped in that pass. Records that no action explains are DRIFT: reported, written to the evidence
+        file, and never a verdict (verdicts come from the monitors). With `selftest`, one record of the trace
+        is corrupted first and the pass must report drift there - the binding is not vacuous."""
+        vals, nrec = collections.OrderedDict(), collections.Counter()
+        curv = None
+        with open(trace) as f:
+            lines = f.readlines()
+        for line in lines:
+            try:
+                ev = json.loads(line)
+            except Exception:
+                continue
+            if ev.get("ev") == "Reset":
+                curv = to_const(ev.get(field))
+                vals[curv] = vals.get(curv, 0) + 1
+            if curv is not None:
+                nrec[curv] += 1
+        drift, passes = [], 0
+        base = open(os.path.join(SPEC, module + ".cfg")).read()
+
+        def one(cval, tlines, tag):
+            d = os.path.join(self.scratch, "ts-%s-%s-%d" % (module, tag, len(os.listdir(self.scratch))))
+            os.makedirs(d)
+            for f in os.listdir(SPEC):
+                if f.endswith(".tla"):
+                    shutil.copy(os.path.join(SPEC, f), d)
+            cfg = re.sub(r"(?m)^(\s*%s\s*=\s*).*$" % re.escape(const), lambda m: m.group(1) + str(cval), base)
+            open(os.path.join(d, module + ".cfg"), "w").write(cfg)
+            open(os.path.join(d, "trace.ndjson"), "w").writelines(tlines)
+            p = self._tlc(["-workers", "1", "-config", module + ".cfg", module + ".tla"], d, timeout, env={"JAVA_TOOL_OPTIONS": "-Xss512m"})
+            dp = os.path.join(d, "drift.ndjson")
+            if "Model checking completed. No error has been found." not in p.stdout or not os.path.exists(dp):
+                log(p.stdout[-4000:])
+                raise Inconclusive("strict validation with %s did not consume the trace" % module)
+            m = re.search(r"(\d+) states generated, (\d+) distinct states found", p.stdout)
+            out = [json.loads(x) for x in open(dp) if x.strip()]
+            shutil.rmtree(d, ignore_errors=True)
+            return out, int(m.group(2)) if m else 0
+        for cval in vals:
+            got, st = one(cval, lines, "v%s" % cval)
+            self.monitor_states += st
+            passes += 1
+            for g in got:
+                g["const"] = cval
+            drift += got
+        info = {"module": module, "tier_I_constant": const, "values": {str(k): v for k, v in vals.items()},
+                "records_checked": int(sum(nrec.values())), "runs": int(sum(vals.values())), "tlc_passes": passes,
+                "drifted_runs": len(drift), "drift": drift[:10]}
+        if selftest:
+            # corrupt one record (selftest returns the changed line or None) in the first run it applies to
+            mut = list(lines)
+            where = None
+            for i, line in enumerate(mut):
+                try:
+                    ev = json.loads(line)
+                except Exception:
+                    continue
+                ch = selftest(ev)
+                if ch is not None:
+                    mut[i] = json.dumps(ch) + "\n"
+                    where = i + 1
+                    break
+            if where is None:
+                raise Inconclusive("strict self-test of %s found no record to corrupt" % module)
+            cv = None
+            for line in lines[:where]:
+                try:
+                    ev = json.loads(line)
+                except Exception:
+                    continue
+                if ev.get("ev") == "Reset":
+                    cv = to_const(ev.get(field))
+            got, _ = one(cv, mut, "selftest")
+            hit = [g for g in got if g["l"] >= where and g["l"] <= where + 40]
+            info["selftest"] = {"corrupted_record": where, "drift_reported_at": [g["l"] for g in hit][:3]}
+            if not hit:
+                raise Inconclusive("strict self-test: a corrupted record (line %d) was accepted by %s - the binding is vacuous" % (where, module))
+        self.strict.append(info)
+        for g in drift[:5]:
+            log("DRIFT (not a verdict): %s does not explain record %s (%s) of run %s at control point %s" % (module, g.get("l"), g.get("ev"), g.get("run"), g.get("pc")))
+        if drift:
+            self.notes.append("%s: %d run(s) drifted from the tier-I model (see coverage.strict_conformance)" % (module, len(drift)))
+        return drift
+
     # ------------------------------------------------------------------ verdict
     def load_findings(self):
         known = []
@@ -305,6 +395,7 @@ class Run:
             "known_findings_seen": {k: n for k, (_, n) in matched.items()},
             "violations_new": len(new),
             "notes": self.notes,
+            "strict_conformance": self.strict,
         }
         if extra:
             cov.update(extra)
